@@ -6,10 +6,12 @@ def _load(n):
     sp = _ilu.spec_from_file_location('contracts_%s_for_typed' % n, _os.path.join(_os.path.dirname(__file__), n + '.py'))
     m = _ilu.module_from_spec(sp); sp.loader.exec_module(m); return m
 _sc = _load('scalars')
+_b64 = _load('base64')
+_evu = _load('events')
 NAME = 'typed'
 FEATURES = []
 USES = ['use vstd::string::*;', 'use vstd::utf8::*;']
-PRELUDE = ['common.shim.rs', 'error.spec.rs', 'evnodes.spec.rs', 'str.shim.rs', 'scalars.spec.rs', 'typed.shim.rs']
+PRELUDE = ['common.shim.rs', 'error.spec.rs', 'evnodes.spec.rs', 'str.shim.rs', 'scalars.spec.rs', 'base64.spec.rs', 'typed.shim.rs']
 SUBST = SUBST_COMMON + [(r"Cow<'(a|de|_), str>", r"CowStr<'\1>")]
 D = 'src/de.rs'
 YD = 'impl de::Deserializer for YamlDeserializer/'
@@ -47,6 +49,7 @@ ITEMS = location_types() + budget_types() + error_types() + [
     dict(src='src/options.rs', path='enum DuplicateKeyPolicy', derive=COPY),
     dict(src=D, path='struct Cfg', derive='#[derive(Clone, Copy)]'),
     dict(src=D, path='enum Ev'),
+    _callee([x for x in _evu.ITEMS if x.get('path') == 'impl Ev/fn location'][0]),
     events_trait(),
     dict(src=D, path='struct YamlDeserializer'),
 ] + PARSERS + [
@@ -64,4 +67,40 @@ ITEMS = location_types() + budget_types() + error_types() + [
                         _ => false }
                     && final(self).ev.rest() == old(self).ev.rest().skip(1) && final(self).cfg == old(self).cfg,
                 Err(_) => true }''')]),
-] + [_entry(t, True) for t in ('i8', 'i16', 'i32', 'i64', 'i128')] + [_entry(t, False) for t in ('u8', 'u16', 'u32', 'u64', 'u128')]
+] + [_entry(t, True) for t in ('i8', 'i16', 'i32', 'i64', 'i128')] + [_entry(t, False) for t in ('u8', 'u16', 'u32', 'u64', 'u128')] + [
+    _callee([x for x in _b64.ITEMS if x.get('path') == 'fn decode_base64_yaml'][0]),
+    _callee([x for x in _evu.ITEMS if x.get('path') == 'impl YamlDeserializer/fn expect_seq_start'][0]),
+    dict(src=D, path=YD + 'fn deserialize_bytes', id='YamlDeserializer::deserialize_bytes',
+        impl_header="impl<'de, 'e> YamlDeserializer<'de, 'e>", props=['C06', 'C05', 'C01'],
+        pre_rewrites=[(r"fn deserialize_bytes<V: Visitor<'de>>\(mut self, visitor: V\) -> Result<V::Value, Self::Error>",
+                       'fn deserialize_bytes(mut self, visitor: Vis) -> Result<VisVal, Error>', 1, 'R9')],
+        rewrites=[(r'if tag == &SfTag::Binary', 'if *tag == SfTag::Binary', 1, 'R15'),
+                  (r'decode_base64_yaml\(&value\)\.map_err\(\|err\| err\.with_location\(data_location\)\)\?',
+                   '(match decode_base64_yaml(value.as_ref()) { Ok(__v) => __v, Err(err) => { return Err(err.with_location(data_location)); } })', 1, 'R18'),
+                  (r'<u8 as serde::Deserialize>::deserialize\(\s*YamlDeserializer::new\(this\.ev, this\.cfg\),\s*\)',
+                   'serde_u8_via_yaml_deserializer(this.ev, this.cfg)', None, 'R8'),
+                  (r'let (\w+): u8 =\s*parse_int_unsigned\(', r'let \1: u8 = parse_int_unsigned_u8(', None, 'R9'),
+                  (r'let mut out = Vec::new\(\);', 'let mut out = Vec::<u8>::new();', None, 'R8')],
+        ensures=[('C06:bytes_are_the_strict_base64_payload_or_the_exact_integer_elements_with_the_configured_option', '''match r {
+              Ok(val) => old(self.ev).rest().len() > 0 && match old(self.ev).rest()[0] {
+                    Ev::Scalar { value, tag, .. } => tag == SfTag::Binary && match b64_decode(b64_strip_ws(encode_utf8(value@))) {
+                        Some(bytes) => Ok::<VisVal, Error>(val) == vis_bytes(visitor, bytes),
+                        None => false },
+                    Ev::SeqStart { .. } => match seq_bytes(old(self.ev).rest(), 1, self.cfg.legacy_octal_numbers) {
+                        Some(bytes) => Ok::<VisVal, Error>(val) == vis_bytes(visitor, bytes),
+                        None => false },
+                    _ => false },
+              Err(_) => true }''')],
+        canaries=['C06:bytes_are_the_strict_base64_payload_or_the_exact_integer_elements_with_the_configured_option'],
+        proofs=[dict(at='start', ghost=True, text='let ghost rest0 = self.ev.rest(); let ghost legacy = self.cfg.legacy_octal_numbers;'),
+                dict(before='out.push(b);', ghost=True, text='proof { lemma_seq_bytes_step(rest0, out@, b, legacy); }'),
+                dict(after_loop=1, label='C05:the_sequence_is_consumed_up_to_and_including_its_end',
+                     text='assert(this.ev.rest() == rest0.skip((out@.len() as int + 2)));')],
+        loops={1: dict(header=r'^loop$', invariant_except_break=[
+                    ('cursor', 'this.ev.rest() == rest0.skip((1 + out@.len() as int)) && (1 + out@.len() as int) <= rest0.len()')],
+                 invariant=[
+                    ('C06:bytes_so_far_are_the_exact_elements_so_far', 'seq_bytes_from(rest0, out@, legacy) == seq_bytes(rest0, 1, legacy)'),
+                    ('config', 'this.cfg.legacy_octal_numbers == legacy')],
+                 ensures=[('at_end', 'rest0.len() > (1 + out@.len() as int) && rest0[(1 + out@.len() as int)] is SeqEnd && this.ev.rest() == rest0.skip((out@.len() as int + 2))')],
+                 decreases='rest0.len() - out@.len()')}),
+]
